@@ -102,3 +102,9 @@ def check(ctx):
     # del_timer only enqueues; the timer thread removes
     ctx.never(TL + "::TimerThread::del_timer", Call(re.escape(L) + "::Entry::remove"), "del-timer-only-enqueues", "del_timer (any thread) never unlinks: it hands the handle to the timer thread", rule="R-WHO")
     ctx.must_call(TL + "::TimerThread::del_timer", Call(MQ_MPSC + "push", on=TL + "::TimerThread.remove_list"), "del-timer-enqueues", "del_timer enqueues the handle into remove_list")
+    # Entry::remove / handle drop only on the consumer thread of the list (the io lists: see C18)
+    allowed = {TL + "::TimerThread::run", "may::io::sys::remove_timer"} | ({sel} if ctx.prog.fn(sel) is not None else set())
+    ctx.who_may_call(re.escape(L) + r"::Entry::remove", allowed, "entry-remove-callers",
+                     "Entry::remove (consumer-only) is called only from the thread that consumes the list: the timer thread, the owning selector loop, remove_timer (reached only on the owner thread)", min_callers=1)
+    if ctx.prog.fn("may::io::sys::remove_timer") is not None:
+        ctx.who_may_call(r"may::io::sys::remove_timer", {sel, "may::io::sys::EventData::del_timer"}, "remove-timer-callers", "remove_timer runs only in the selector loop or in del_timer behind the owner-thread test", min_callers=2)
